@@ -51,6 +51,8 @@ func main() {
 	}
 	scen = append(scen, netsim.Scenario{Cfg: netsim.Config{Name: "4x1-lock-split", Powers: []int64{1, 1, 1, 1}, Byz: []int{3}, ByzMenu: true, Driver: "lock-split", TargetHeight: 1, MaxRound: 5, MaxSteps: 500}, Bound: b - 1})
 	scen = append(scen, netsim.Scenario{Cfg: netsim.Config{Name: "4x1-late-polka", Powers: []int64{1, 1, 1, 1}, Byz: []int{3}, ByzMenu: true, Driver: "late-polka", TargetHeight: 1, MaxRound: 6, MaxSteps: 600}, Bound: b - 1})
+	// correct nodes that commit round 1's block while standing in round 2, then the next height, Byzantine menu on
+	scen = append(scen, netsim.Scenario{Cfg: netsim.Config{Name: "4x1-late-commit-then-next-height", Powers: []int64{1, 1, 1, 1}, Byz: []int{3}, ByzMenu: true, Driver: "late-commit", TargetHeight: 2, MaxRound: 6, MaxSteps: 1500}, Bound: b - 1})
 	// a correct node cut off for K failed rounds, then flooded with the backlog (round skips with timeouts pending), Byzantine menu on
 	scen = append(scen, netsim.Scenario{Cfg: netsim.Config{Name: "4x1-lagging-node", Powers: []int64{1, 1, 1, 1}, Byz: []int{3}, ByzMenu: true, Driver: "lagging2", TargetHeight: 1, MaxRound: 8, MaxSteps: 1500}, Bound: b - 1})
 	macro := "macro2"
